@@ -104,6 +104,9 @@ ENGINES.append({"name": "bus-rig", "path": "harness/src/bus", "serves_properties
   "kind_free_text": "deterministic single-thread executor (scripted/random), in-memory AsyncTransport with fault injection, executable sequential model of the bus with nondeterministic transitions, protocol-level peers driving the real Broker/Connection tasks, workload generator, snapshot-hook and statistics cross-checks"})
 
 RIG_NOTE = "Real aldrin::Client, Broker and Connection tasks on the harness executor (single thread, seeded random task order with spurious polls) over the harness transport; programs are deadlock-free by construction, so a task still waiting at quiescence is a lost wake-up or deadlock; thread-level races are not explored."
+CLAIMED["C04"] = ("bus-rig+client-rig", "exploration",
+   "Two layers. Broker level: generated event histories (subscribe/unsubscribe per event and all-events, service subscriptions, emits by owner and strangers, destroys and disconnects over 3 event ids) against the bus model: exact delivery sets, 0<->1 notifications at the owner (also when caused by a disconnect), ServiceDestroyed once per subscribed connection. Client level: real owners and subscribers (several proxies per client, per-event and all-events subscriptions, proxies dropped) under random schedules: every event requested through a subscribed proxy arrives, in order, so the owner-side emit filter of the client library agrees with the broker's subscription state. Held on what was observed.",
+   BUS_NOTE + " For a connection whose only subscription is all-events the ServiceDestroyed notification is accepted present or absent (DESIGN C04 interpretation). " + RIG_NOTE, "runtime history-vs-model oracle + tagged-event delivery check over real clients under random schedules", "DESIGN.md §4 C04")
 CLAIMED["C05"] = ("bus-rig+client-rig", "exploration",
    "Two layers. Broker level: generated channel histories (create/claim/close/send-item/add-capacity/disconnect on both ends, capacities 0,1,3,4,5,16,2^32-2,2^32-1, senders within and beyond their announced credit, overflowing grants) against the bus model: end state machine, both credits, conservation (forwarded <= granted, announced <= granted), exactly one claimed/closed notification, starvation check. Client level: producer and consumer on different real clients with the real Sender/Receiver under random schedules and FIFO sizes 1..16: what arrives is the exact in-order prefix of the uniquely numbered items, complete unless one side stopped early, the producer never errors while the consumer reads, both terminate. Held on what was observed.",
    BUS_NOTE + " " + RIG_NOTE, "runtime history-vs-model oracle + exactly-once/in-order log check over real clients under random schedules", "DESIGN.md §4 C05")
@@ -116,7 +119,7 @@ CLAIMED["C15"] = ("client-rig", "fault_enumeration",
 CLAIMED["C19"] = ("client-rig", "exploration",
    "Actors on several real clients create, destroy and drop objects (3 UUIDs, re-created under new cookies) and services (2 UUIDs) while discoverers of every entry shape (built in the three ways, read at random points with cancelled polls, restarted), lifetimes bound to every object and find_object queries run concurrently under seeded random schedules. At quiescence the discoverer database (iter, object_id, service_id) must equal the ground truth per entry, per-object event streams must alternate created/destroyed and end in the truth, a lifetime has resolved iff its object is gone, and find results must have existed during the call. Held on the (program, schedule) pairs observed.",
    RIG_NOTE + " Ground truth = the Object/Service values the actors hold at quiescence.", "runtime convergence-to-ground-truth oracle over randomized schedules", "DESIGN.md §4 C19")
-ENGINES.append({"name": "client-rig", "path": "harness/src/bus/clientrig.rs", "serves_properties": ["C05", "C06", "C15", "C19"],
+ENGINES.append({"name": "client-rig", "path": "harness/src/bus/clientrig.rs", "serves_properties": ["C04", "C05", "C06", "C15", "C19"],
   "kind_free_text": "real aldrin clients + broker + connection tasks on the deterministic executor in random mode; transport with FIFO bounds, fault injection at the k-th ready operation (error / EOF / half-open) and protocol-version downgrade; program generator over the public client API; in-poll hang watchdog"})
 
 CLAIMED["C17"] = ("schema-lab", "exploration",
